@@ -138,6 +138,11 @@ impl Connection {
     pub async fn read_datagram(&self) -> Result<bytes::Bytes, ConnectionError> {
         self.inner.read_datagram().await
     }
+
+    #[cfg(bmwill_anemo_verif)]
+    pub(crate) fn verif_inner(&self) -> &quinn::Connection {
+        &self.inner
+    }
 }
 
 impl fmt::Debug for Connection {
